@@ -132,12 +132,15 @@ MHD_create_post_processor (struct MHD_Connection *connection,
  * @param value_end where does the value end
  * @param last_escape last '%'-sign in value range,
  *        if relevant, or NULL
+ * @param last true if the value ends at @a value_end (nothing can
+ *        follow that would complete an escape sequence)
  */
 static void
 process_value (struct MHD_PostProcessor *pp,
                const char *value_start,
                const char *value_end,
-               const char *last_escape)
+               const char *last_escape,
+               bool last)
 {
   char xbuf[XBUF_SIZE + 1];
   size_t xoff;
@@ -187,9 +190,17 @@ process_value (struct MHD_PostProcessor *pp,
     }
     /* find if escape sequence is at the end of the processing buffer;
        if so, exclude those from processing (reduce delta to point at
-       end of processed region) */
-    if ( (xoff > 0) &&
-         ('%' == xbuf[xoff - 1]) )
+       end of processed region); at the very end of the value an
+       incomplete escape sequence cannot be completed any more: it must
+       not be kept for (and glued to) the next value, it is decoded
+       leniently, i.e. passed on unchanged, like everywhere else */
+    if (last &&
+        (value_start == value_end))
+    {
+      /* nothing to hold back */
+    }
+    else if ( (xoff > 0) &&
+              ('%' == xbuf[xoff - 1]) )
     {
       cut = (xoff != XBUF_SIZE);
       xoff--;
@@ -388,7 +399,8 @@ post_process_urlencoded (struct MHD_PostProcessor *pp,
         end_value = &post_data[poff];
         poff++;
         if (pp->must_ikvi ||
-            (start_value != end_value) )
+            (start_value != end_value) ||
+            (0 != pp->xbuf_pos) )
         {
           pp->state = PP_Callback;
         }
@@ -406,7 +418,8 @@ post_process_urlencoded (struct MHD_PostProcessor *pp,
         /* Case: 'value\n' or 'value\r' */
         end_value = &post_data[poff];
         if (pp->must_ikvi ||
-            (start_value != end_value) )
+            (start_value != end_value) ||
+            (0 != pp->xbuf_pos) )
           pp->state = PP_Callback; /* No poff advance here to set PP_Done in the next iteration */
         else
         {
@@ -488,7 +501,8 @@ post_process_urlencoded (struct MHD_PostProcessor *pp,
       process_value (pp,
                      start_value,
                      end_value,
-                     NULL);
+                     NULL,
+                     true);
       if (PP_Error == pp->state)
         continue;
       pp->value_offset = 0;
@@ -564,7 +578,8 @@ post_process_urlencoded (struct MHD_PostProcessor *pp,
     process_value (pp,
                    start_value,
                    end_value,
-                   last_escape);
+                   last_escape,
+                   false);
     pp->must_ikvi = false;
   }
   if (PP_Error == pp->state)
